@@ -56,7 +56,7 @@ CLAIMED = {
 PENDING_REASON = "check under construction in this round (not yet registered); the technique applies, see DESIGN.md §6"
 
 man = {"version": 1,
- "setup_cmd": "cd lean && lake build Dtaiverif dvdriver",
+ "setup_cmd": "python3 translate/omp_plan.py && python3 translate/c_index.py && cd lean && lake build Dtaiverif dvdriver",
  "hooks": {"guard": "DTAIDISTANCE_VERIF",
            "enable": "no source hooks are needed: checks observe public APIs and exported C symbols of a fresh out-of-tree build of /repo's working tree",
            "baseline_off_cmd": "cd /repo && /venv/bin/python setup.py build_ext --inplace -q && /venv/bin/python -m pytest -ra -q -p no:cacheprovider --timeout=900 --continue-on-collection-errors",
